@@ -476,7 +476,7 @@ func (g *c05g) program() []*sx {
 }
 
 func c05gen(r *rand.Rand, tier string, emit func(string)) {
-	n := 900
+	n := 1200
 	if tier == "thorough" {
 		n = 30000
 	}
